@@ -11,6 +11,64 @@ import smgen
 import stages
 import ties
 
+P = r'::state_machines::core::'
+AROUND_MATCH = (r'\{' + P + r'AroundOutcome::Proceed=>\{\},' + P + r'AroundOutcome::Abort\(err\)=>\{let callback_name=match&err\.kind\{'
+                + P + r'TransitionErrorKind::GuardFailed\{guard\}=>\*guard,' + P + r'TransitionErrorKind::ActionFailed\{action\}=>\*action,'
+                + P + r'TransitionErrorKind::InvalidTransition=>stringify!\((\w+)\),\};')
+RE_AB = re.compile(r'^match self\.(\w+)\(' + P + r'AroundStage::Before\)(\.await)?' + AROUND_MATCH
+                   + r'return::core::result::Result::Err\(\(self,' + P + r'GuardError::with_kind\(callback_name,stringify!\((\w+)\),err\.kind\)\)\);\}\}$')
+RE_AA = re.compile(r'^match new_machine\.(\w+)\(' + P + r'AroundStage::AfterSuccess\)(\.await)?' + AROUND_MATCH
+                   + r'panic!\("Around callback \'\{\}\' aborted at AfterSuccess stage during event \'\{\}\'.*",callback_name,stringify!\((\w+)\)\);\}\}$', re.S)
+RE_C = re.compile(r'^if(!)?\s?self\.(\w+)\(&self\.ctx(,&payload)?\)(\.await)?\{return::core::result::Result::Err\(\(self,' + P
+                  + r'GuardError::new\(stringify!\((\w+)\),stringify!\((\w+)\)\)\)\);\}$')
+RE_B = re.compile(r'^self\.(\w+)\((&payload)?\)(\.await)?;$')
+RE_A = re.compile(r'^new_machine\.(\w+)\((&payload)?\)(\.await)?;$')
+RE_N = re.compile(r'^let mut new_machine=(\w+)\{ctx:self\.ctx,_state:::core::marker::PhantomData,(.*)\};$')
+RE_INIT = re.compile(r'(\w+):::core::option::Option::(None|Some\(<([^,]*?)as::core::default::Default>::default\(\)\)),')
+
+
+def b2s(x):
+    return '1' if x else '0'
+
+
+def inits_code(text):
+    out = []
+    pos = 0
+    for m in RE_INIT.finditer(text):
+        if m.start() != pos:
+            return None
+        pos = m.end()
+        out.append('%s=%s' % (m.group(1), 'N' if m.group(2) == 'None' else 'D'))
+    if pos != len(text):
+        return None
+    return ','.join(out)
+
+
+def stmt_code(st, name):
+    m = RE_AB.match(st)
+    if m and m.group(1) == m.group(3):
+        return 'AB(%s,%s,%s)' % (m.group(1), b2s(m.group(2)), m.group(4))
+    m = RE_AA.match(st)
+    if m and m.group(1) == m.group(3):
+        return 'AA(%s,%s,%s)' % (m.group(1), b2s(m.group(2)), m.group(4))
+    m = RE_C.match(st)
+    if m:
+        return 'C(%s,%s,%s,%s,%s,%s)' % (b2s(m.group(1)), m.group(2), b2s(m.group(3)), b2s(m.group(4)), m.group(5), m.group(6))
+    m = RE_B.match(st)
+    if m:
+        return 'B(%s,%s,%s)' % (m.group(1), b2s(m.group(2)), b2s(m.group(3)))
+    m = RE_A.match(st)
+    if m:
+        return 'A(%s,%s,%s)' % (m.group(1), b2s(m.group(2)), b2s(m.group(3)))
+    m = RE_N.match(st)
+    if m and m.group(1) == name:
+        ic = inits_code(m.group(2))
+        if ic is not None:
+            return 'N(1,%s)' % ic
+    if st == '::core::result::Result::Ok(new_machine)':
+        return 'OK'
+    return 'UNKNOWN<%s>' % st[:160]
+
 
 def skel_table(skel, name, concrete):
     """table lines (same vocabulary as Script.k3_table) from the real expansion"""
@@ -53,11 +111,15 @@ def skel_table(skel, name, concrete):
                     r = ret.match(f['output'])
                     if f['name'] == 'new' and f['output'] == 'Self':
                         out.append('new|' + st)
+                        mm = re.match(r'^Self\{ctx,_state:::core::marker::PhantomData,(.*)\}$', ''.join(f['stmts']))
+                        ic = inits_code(mm.group(1)) if mm else None
+                        out.append('nb|%s|%s' % (st, ic if ic is not None else 'UNKNOWN<%s>' % ''.join(f['stmts'])[:120]))
                     elif r:
                         pl = 'p' if len(f['inputs']) == 2 else '-'
                         if f['inputs'][0] != 'mut self' or f['vis'] != 'pub':
                             pl = 'BADSIG'
                         out.append('m|%s|%s|%s|%s|%s' % (st, f['name'], r.group(1), pl, 'a' if f['async'] else '-'))
+                        out.append('b|%s|%s|%s' % (st, f['name'], ';'.join(stmt_code(x, name) for x in f['stmts'])))
                     elif f['name'] == 'into_dynamic':
                         pass
                     elif f['name'].endswith('_data') and f['output'].startswith('&') and f['inputs'] == ['&self']:
@@ -163,6 +225,7 @@ def k1_struct(ctx):
 # which table-line kinds matter to which property
 KINDS = {
     'C01': ('arm', 'ev', 'new', 'm', 'BAD'),
+    'C03': ('b',), 'C04': ('b',), 'C05': ('b', 'arm'), 'C06': ('b',), 'C08': ('b', 'nb', 'fld'), 'C15': ('b', 'arm', 'm'), 'C16': ('b',),
     'C02': ('m', 'new', 'acc', 'UNEXPECTED', 'BAD-STRUCT', 'OTHER'),
     'C07': ('m', 'sub', 'mk', 'arm'),
     'C14': None,       # everything
